@@ -541,6 +541,7 @@ fn case_strategy() -> impl Strategy<Value = Case> {
         30 => halfway_case(),
         20 => (any::<bool>(), wide_literal()).prop_map(|(single, lit)| Case::Float { single, lit, halfway: false }),
         12 => printed_float_case(),
+        1 => (any::<bool>(), crate::gen::lit::compensated_exponent_literal()).prop_map(|(single, lit)| Case::Float { single, lit, halfway: false }),
         2 => (any::<bool>(), crate::gen::lit::extreme_exponent_literal()).prop_map(|(single, lit)| Case::Float { single, lit, halfway: false }),
         1 => crate::gen::lit::extreme_exponent_literal().prop_map(|lit| Case::BoolLit { lit }),
         // short literals: at most 19 digits, small or no exponent (the range of the readers' shortcuts)
